@@ -189,6 +189,8 @@ def judge(ctx, cs, what, tab):
 def brief(e):
     if e['op'] == 'gensym':
         return 'generated symbol for ' + ' * '.join('%s^%d' % (''.join(chr(x) for x in it['codes']), it['e']) for it in e['items'])
+    if e['op'] == 'latesym':
+        return 'text with symbol %r before and after its declaration' % e['sym']
     if e['op'] == 'dupsym':
         return 'declare a second unit %r (%s) in another type' % (e['u'], e['how'])
     if e['op'] in ('str', 'strunit'):
@@ -226,7 +228,7 @@ def run(ctx):
             gens.append(dict(op='gensym', how='ref', items=[dict(codes=[ord(ch) for ch in s_], e=e) for s_, e in zip(ss, exps)]))
     if quick:
         gens = rnd.sample(gens, 60)
-    dup = dup + gens
+    dup = dup + gens + [dict(op='latesym', sym=sy) for sy in ('smoot', 'zz', 'late one', 'µx')]
     judge(ctx, number_cases(tab, quick, rnd) + string_cases(tab, quick, rnd) + dup, 'text', tab)
     # quantized types: "rounded only if the type has a quantum" - user currencies with arbitrary smallest
     # fractions, constructed from numbers of every kind and from strings (Money.tla, big naturals)
